@@ -166,13 +166,22 @@ impl<const N: usize> RBuf<N> {
             self.overflow = true;
         }
     }
-    /// `n` octets of `v`, least significant first (little) or most significant first (big)
-    pub fn put_uint(&mut self, v: u64, n: usize, big: bool) {
-        let mut i = 0;
-        while i < n {
-            let sh = if big { 8 * (n - 1 - i) } else { 8 * i };
-            self.put((v >> sh) as u8);
-            i += 1;
+    /// append a slice (memcpy, no loop)
+    pub fn extend(&mut self, src: &[u8]) {
+        let n = src.len();
+        if n <= N - self.len {
+            self.buf[self.len..self.len + n].copy_from_slice(src);
+            self.len += n;
+        } else {
+            self.overflow = true;
+        }
+    }
+    /// append `n` zero octets: the buffer is zero-initialised and only written below `len`
+    pub fn zeros(&mut self, n: usize) {
+        if n <= N - self.len {
+            self.len += n;
+        } else {
+            self.overflow = true;
         }
     }
 }
@@ -189,4 +198,33 @@ pub fn bytes_eq(a: &[u8], b: &[u8]) -> bool {
         i += 1;
     }
     true
+}
+
+/// Source of the words a reference value is drawn from: `kani::any()` in a harness,
+/// the concrete values of a counterexample in the native replay runner.
+pub trait Src {
+    fn word(&mut self) -> u64;
+}
+
+#[cfg(kani)]
+pub struct KaniSrc;
+
+#[cfg(kani)]
+impl Src for KaniSrc {
+    fn word(&mut self) -> u64 {
+        kani::any()
+    }
+}
+
+pub struct VecSrc<'a> {
+    pub words: &'a [u64],
+    pub i: usize,
+}
+
+impl<'a> Src for VecSrc<'a> {
+    fn word(&mut self) -> u64 {
+        let w = if self.i < self.words.len() { self.words[self.i] } else { 0 };
+        self.i += 1;
+        w
+    }
 }
